@@ -25,6 +25,8 @@ enum Op {
     ClearScope(String),
     Push(Option<Vec<String>>),
     Pop(Option<Vec<String>>),
+    /// an unrelated script-implemented command that fails (wrong handle): no effect on variables or saved maps
+    OtherCommandFails(u8),
 }
 
 fn value(t: &mut Tape) -> String {
@@ -39,7 +41,7 @@ fn names(t: &mut Tape, max: usize) -> Vec<String> {
 }
 
 fn gen_op(t: &mut Tape) -> Op {
-    match t.weighted(&[6, 2, 3, 2, 2, 1, 1, 1, 4, 4]) {
+    match t.weighted(&[6, 2, 3, 2, 2, 1, 1, 1, 4, 4, 1]) {
         0 => Op::Set(t.pick(NAMES).to_string(), value(t)),
         1 => Op::Unset(names(t, 3)),
         2 => Op::SetByName(t.pick(NAMES).to_string(), if t.chance(2, 3) { Some(value(t)) } else { None }),
@@ -49,6 +51,7 @@ fn gen_op(t: &mut Tape) -> Op {
         6 => Op::UnsetAll(if t.flip() { Some(t.pick(&["a", "ab", "s::", "s", "zz", ""]).to_string()) } else { None }),
         7 => Op::ClearScope(t.pick(&["s", "a", "s::x", "none"]).to_string()),
         8 => Op::Push(if t.chance(2, 3) { Some(names(t, 4)) } else { None }),
+        10 => Op::OtherCommandFails(t.below(2) as u8),
         _ => Op::Pop(if t.chance(2, 3) { Some(names(t, 4)) } else { None }),
     }
 }
@@ -194,6 +197,11 @@ fn run_ops(ctx: &mut Context, m: &mut HashMap<String, String>, stack: &mut Vec<H
                     }
                 }
                 (r, format!("Continue({:?})", v))
+            }
+            Op::OtherCommandFails(k) => {
+                st.class("unrelated-script-command-fails-in-between");
+                let r = if *k == 0 { exec(ctx, "array_concat", vec!["not-a-handle".to_string()]) } else { exec(ctx, "array_join", vec!["not-a-handle".to_string(), ",".to_string()]) };
+                (r, "Error(".to_string())
             }
             Op::GetByName(k) => (exec(ctx, "get_by_name", vec![k.clone()]), format!("Continue({:?})", m.get(k))),
             Op::IsDefined(k) => (exec(ctx, "is_defined", vec![k.clone()]), format!("Continue({:?})", Some(m.contains_key(k).to_string()))),
@@ -380,7 +388,7 @@ fn case_t(t: &mut Tape, st: &mut Stats) -> Verdict {
 pub fn property() -> Property {
     Property {
         id: "C11",
-        rule: "histories of 1..40 (thorough ..120) operations (set, unset, set_by_name with/without value, get_by_name, is_defined, get_all_var_names (with or without an output variable, which may be defined already), unset_all_vars with/without --prefix, clear_scope, scope_push_stack and scope_pop_stack with/without --copy lists naming defined, undefined and repeated names, pops on an empty stack) over 8 names (prefix-sharing, '::' names, names holding another name's prefix in the middle) and hazard values, each executed as one run_instruction on a persistent SDK context; after EVERY step the command result and the whole variable map are compared with HashMap + Vec<HashMap>; one history in six is continued (mostly with pops) on a clone of the context taken at an earlier step, after the original went on, against a clone of the model; (deep-stack) 257..336 pushes open at once, each level marked, then popped last-in-first-out plus one pop too many. Non-trivial: push depth >= 2 with a --copy, or a failed pop followed by more operations; distinct by history",
+        rule: "histories of 1..40 (thorough ..120) operations (set, unset, set_by_name with/without value, get_by_name, is_defined, get_all_var_names (with or without an output variable, which may be defined already), unset_all_vars with/without --prefix, clear_scope, scope_push_stack and scope_pop_stack with/without --copy lists naming defined, undefined and repeated names, pops on an empty stack, and now and then an unrelated script-implemented command that fails and must leave variables and saved maps alone) over 8 names (prefix-sharing, '::' names, names holding another name's prefix in the middle) and hazard values, each executed as one run_instruction on a persistent SDK context; after EVERY step the command result and the whole variable map are compared with HashMap + Vec<HashMap>; one history in six is continued (mostly with pops) on a clone of the context taken at an earlier step, after the original went on, against a clone of the model; (deep-stack) 257..336 pushes open at once, each level marked, then popped last-in-first-out plus one pop too many. Non-trivial: push depth >= 2 with a --copy, or a failed pop followed by more operations; distinct by history",
         assumptions: &[
             "values are free of '$', '%' and backslash (binding of such values is C02's subject)",
             "for a name undefined when copied on pop only the absence of a failure and the rest of the map are compared (the model adopts the observed value of that name)",
@@ -394,7 +402,7 @@ pub fn property() -> Property {
                     Tier::Thorough => Plan::Random { cases: 10_000_000, max_len: 500 },
                 },
                 case: case_q,
-                min_classes: &[("pop-on-empty-stack", 2000), ("pop-copy-of-undefined-name", 2000), ("push-depth-2", 2000), ("listing-assigned-to-a-variable-that-is-already-defined", 2000), ("history-continued-on-a-clone-with-open-pushes", 5000)],
+                min_classes: &[("pop-on-empty-stack", 2000), ("pop-copy-of-undefined-name", 2000), ("push-depth-2", 2000), ("listing-assigned-to-a-variable-that-is-already-defined", 2000), ("history-continued-on-a-clone-with-open-pushes", 5000), ("unrelated-script-command-fails-in-between", 5000)],
             },
             Section {
                 name: "deep-stack",
